@@ -392,6 +392,15 @@ class ProgGen:
                     % (name, name, name, i, op, n, name, step, r.pick(['a', 'a', 'a + i', 'a + 1'])))
             return text, name, op, stride
         step = '%s %s %d' % (i, '+' if stride > 0 else '-', abs(stride))
+        if r.chance(1, 8):
+            # the ONLY exit sits in a nested conditional; every sibling branch is a tail call (the loop's break value is assigned
+            # inside an if-else inside an if-else)
+            self.features.add('loop-only-nested-exit')
+            s1, s2 = r.pick([1, 2, 3, 7]), r.pick([1, 5, 50])
+            ret_ = r.pick(['acc', 'acc + i', 'acc * 2 - n', 'i'])
+            text = ('  function %s(i: int, acc: int, n: int): int = if i > 0 { if acc > n + 100 { %s } else { Main.%s(i - 1, acc + %d, n) } } '
+                    'else { Main.%s(i + 3, acc + %d, n) }' % (name, ret_, name, s1, name, s2))
+            return text, name, '<', 1
         if r.chance(1, 6):
             # a second counter with its own start value and stride, and a value derived from IT (not from the guarded counter)
             self.features.add('loop-two-counters')
@@ -774,9 +783,41 @@ def gen_builtin_program(rng):
     L.append('    Main.show("nonempty.eq(empty)", c.eq(Vec.empty<int>()));')
     L.append('    Main.show("empty.eq(empty)", Vec.empty<int>().eq(Vec.empty<int>()));')
     L.append('    Main.show("self", c.eq(c));')
+    if rng.chance(1, 2):
+        # the LAST statement leaves the bounds: at the length (inside the spare capacity after pushes), past the capacity, at -1, or
+        # pops an empty Vec - everything before must have been printed and the run must end abnormally on every engine
+        v = rng.pick(['a', 'b'])
+        n = lens[v]
+        L.append('    Process.println("before the out-of-bounds access");')
+        L.append(rng.pick(['    %s.set(z + %d, 1);' % (v, n), '    Process.println(Str.fromInt(%s.get(z + %d)));' % (v, n),
+                           '    %s.set(z + %d, 1);' % (v, n + 1), '    %s.set(z - 1, 1);' % v,
+                           '    Process.println(Str.fromInt(%s.get(z + %d)));' % (v, n + 40),
+                           '    let _ = Vec.empty<int>().pop();']))
+        L.append('    Process.println("not reached");')
     text = ('class Main {\n  function show(label: Str, b: bool): unit = if b { Process.println(label :: ": T") } else { Process.println(label :: ": F") }\n'
             '  function main(): unit = {\n    let z = "0".toInt();\n' + '\n'.join(L) + '\n  }\n}\n')
     return {'sources': {'Main': text}, 'entry': 'Main', 'features': ['builtins']}
+
+
+def oob_programs():
+    """Small programs whose LAST action leaves the bounds of a Vec at a chosen place: at the length while the backing array still
+    has spare capacity (after 1, 3, 5 pushes / withCapacity), past the capacity, at -1; pop of an empty Vec. Everything before must
+    be printed and every engine must end abnormally (spec: get / set / pop panic when out of bounds)."""
+    out = []
+    for pushes in (1, 3, 5):
+        for how in ('set', 'get'):
+            for idx, label in ((pushes, 'at-length'), (pushes + 9, 'past-capacity'), (-1, 'negative')):
+                access = ('v.set(z + %d, 7);' % idx) if how == 'set' else ('Process.println(Str.fromInt(v.get(z + %d)));' % idx)
+                mk = 'let v = Vec.empty<int>();' if pushes != 3 else 'let v = Vec.withCapacity<int>(z + 6);'
+                body = '\n'.join(['    ' + mk] + ['    v.push(z + %d);' % (10 + k) for k in range(pushes)] +
+                                 ['    Process.println(Str.fromInt(v.length()));', '    Process.println("before");', '    ' + access,
+                                  '    Process.println("after");'])
+                text = 'class Main {\n  function main(): unit = {\n    let z = "0".toInt();\n' + body + '\n  }\n}\n'
+                out.append({'sources': {'Main': text}, 'entry': 'Main', 'features': ['oob:%s-%s-%d' % (how, label, pushes)]})
+    text = ('class Main {\n  function main(): unit = {\n    let v = Vec.empty<int>();\n    v.push(1);\n    Process.println(Str.fromInt(v.pop()));\n'
+            '    Process.println("before");\n    Process.println(Str.fromInt(v.pop()));\n    Process.println("after");\n  }\n}\n')
+    out.append({'sources': {'Main': text}, 'entry': 'Main', 'features': ['oob:pop-empty']})
+    return out
 
 
 INFER_PRELUDE = '''class Opt<T>(Non, Som(T)) {
@@ -954,6 +995,22 @@ def infer_violation_programs(rng):
         text = (INFER_PRELUDE + 'class PO(val a: Opt<int>, val b: int) {}\nclass Main {\n' + INFER_HELPERS + member +
                 '  function main(): unit = Process.println(Str.fromInt(Main.bad(PO.init(Opt.Non(), 1)) + Main.bad(PO.init(Opt.Som(2), 1))))\n}\n')
         out.append((kind, {'sources': {'Main': text}, 'entry': 'Main', 'mutated': 'Main'}))
+    # names / instantiations inside positions that have their own traversal: the RESULT of a function type, the bound of a type
+    # parameter of a STATIC function of a generic class (first, second position)
+    for kind, member in [
+        ('unresolved-name-in-function-type-result', '  function bad(f: (int) -> Nope): int = 1\n'),
+        ('unresolved-name-in-function-type-result', '  function bad(f: (int) -> (Str) -> Nope2): int = 1\n'),
+        ('unresolved-name-in-function-type-result', '  function bad(): int = { let g: ((int) -> Nope3) -> int = (h) -> 1; 1 }\n'),
+        ('unresolved-name-in-function-type-result', '  function bad(): (int) -> Opt<Nope4> = (q) -> Opt.Non()\n'),
+    ]:
+        text = (INFER_PRELUDE + 'class Main {\n' + INFER_HELPERS + member + '  function main(): unit = Process.println("x")\n}\n')
+        out.append((kind, {'sources': {'Main': text}, 'entry': 'Main', 'mutated': 'Main'}))
+    for cls in ['class BoxB<A>(val a: A) { function <T: Nd> cmpB(x: T): int = 0 }\n',
+                'class BoxB<A, B>(val a: A, val b: B) { function <S, T: Nd> cmpB(x: T, y: S): int = 0 }\n',
+                'class BoxB<A>(val a: A) { function <T: Gr<int>> cmpB(x: T): int = 0 }\n',
+                'class BoxB<A>(val a: A) { method <T: Nd> cmpB(x: T): int = 0 }\n']:
+        text = (INFER_PRELUDE + cls + 'class Main {\n' + INFER_HELPERS + '  function main(): unit = Process.println("x")\n}\n')
+        out.append(('invalid-bound-of-member-type-parameter', {'sources': {'Main': text}, 'entry': 'Main', 'mutated': 'Main'}))
     # a class implementing two unrelated interfaces that declare the same method with different signatures
     for a, b in (('int', 'Str'), ('Str', 'int')):
         cls = ('interface SzA { method measure(): %s }\ninterface SzB { method measure(): %s }\n'
